@@ -34,7 +34,14 @@ def run(module, call):
         r = eval(call, ns)  # noqa: S307 - witness text produced by our own engines
     except BaseException as e:  # noqa: BLE001
         tb = traceback.format_exc().strip().splitlines()
-        return {"reproduced": True, "outcome": "raised %s: %s" % (type(e).__name__, str(e)[:300]), "traceback": tb[-6:]}
+        msg = str(e)
+        # the harness itself is out of step with the tree (an internal name it uses was renamed / removed, or a slip of mine): that is a
+        # harness fault, not a violation of the property -- never reported as VIOLATION
+        fault = isinstance(e, (ImportError, NameError)) or (isinstance(e, AttributeError) and (
+            msg.startswith("module 'stix2") or msg.startswith("type object '") or "has no attribute '_" in msg and "module" in msg))
+        if fault:
+            return {"reproduced": None, "harness_fault": True, "outcome": "harness fault %s: %s" % (type(e).__name__, msg[:300]), "traceback": tb[-6:]}
+        return {"reproduced": True, "outcome": "raised %s: %s" % (type(e).__name__, msg[:300]), "traceback": tb[-6:]}
     return {"reproduced": not bool(r), "outcome": "returned %r" % (r,)}
 
 
@@ -60,7 +67,7 @@ def main():
     print("@@REPLAY@@" + json.dumps(res))
     if a.file:
         print("REPRODUCED" if res["reproduced"] else "NOT REPRODUCED", "-", res["outcome"])
-    sys.exit(1 if res["reproduced"] else 0)
+    sys.exit(3 if res.get("harness_fault") else 1 if res["reproduced"] else 0)
 
 
 if __name__ == "__main__":
